@@ -2094,8 +2094,12 @@ class Backend:
             source_list_raw = target.sources
             source_list = []
             for j in source_list_raw:
+                if isinstance(j, build.LocalProgram):
+                    j = j.program
                 if isinstance(j, mesonlib.File):
                     source_list += [j.absolute_path(self.source_dir, self.build_dir)]
+                elif isinstance(j, programs.Program):
+                    source_list += [os.path.join(self.build_dir, mesonlib.unwrap(j.get_path()))]
                 elif isinstance(j, (build.CustomTarget, build.CustomTargetIndex, build.BuildTarget)):
                     source_list += [os.path.join(self.build_dir, j.get_builddir(), o) for o in j.get_outputs()]
                 elif isinstance(j, build.GeneratedList):
